@@ -36,6 +36,10 @@ type Case struct {
 	Geom gen.G `json:"geom"`
 	SRID int   `json:"srid"`       // 0 = absent (plain WKB), else in [1, 2^31)
 	BE   bool  `json:"big_endian"` // byte order handed to the encoder
+	// Lite bounds the cost of the length enumeration: scanner framings raw + lower-case hex only, and
+	// one package (ewkb when an SRID is present, wkb when absent); all ten destinations, the one-shot,
+	// streaming and SRID-prefix paths and every encode route of that package stay.
+	Lite bool `json:"lite,omitempty"`
 }
 
 // ---------------------------------------------------------------- expectation model
@@ -534,7 +538,7 @@ func checkScan(a api, scan func(interface{}, []byte) scanResult, what string, fr
 }
 
 // checkBytes feeds one encoding through every decode path of package a.
-func checkBytes(a api, route string, data []byte, want orb.Geometry, exps []expectation, srid int) error {
+func checkBytes(a api, route string, data []byte, want orb.Geometry, exps []expectation, srid int, lite bool) error {
 	if !a.hasSRID {
 		srid = 0
 	}
@@ -585,9 +589,9 @@ func checkBytes(a api, route string, data []byte, want orb.Geometry, exps []expe
 			}
 		}
 	}
-	// scanner: 10 destinations x 5 framings (encodings above 16 KiB: raw and lower-case hex only, to bound the cost)
+	// scanner: 10 destinations x 5 framings (lite cases and encodings above 16 KiB: raw and lower-case hex only, to bound the cost)
 	for i, f := range framings {
-		if len(data) > 16384 && i >= 2 {
+		if (lite || len(data) > 16384) && i >= 2 {
 			break
 		}
 		if err := checkScan(a, a.scan, f.name+" of "+route, f.make(data), want, exps, srid, nil); err != nil {
@@ -608,6 +612,11 @@ func checkCase(c Case) error {
 		exps = expectAll(want)
 	}
 	for _, a := range []api{ewkbAPI, wkbAPI} {
+		// lite cases go through one package: ewkb when an SRID is present, wkb when it is absent
+		// (the two share the codec; the full matrix runs on every non-lite case)
+		if c.Lite && a.hasSRID != (c.SRID != 0) {
+			continue
+		}
 		srid := c.SRID
 		if !a.hasSRID {
 			srid = 0
@@ -649,7 +658,7 @@ func checkCase(c Case) error {
 			if i > 0 && len(main.data) == 0 {
 				return fmt.Errorf("%s.%s wrote %d bytes where %s wrote none", a.name, e.route, len(e.data), main.route)
 			}
-			if err := checkBytes(a, e.route, e.data, want, exps, srid); err != nil {
+			if err := checkBytes(a, e.route, e.data, want, exps, srid, c.Lite); err != nil {
 				return err
 			}
 		}
@@ -807,11 +816,21 @@ func drawCase(t *rapid.T) Case {
 		o.Coord = gen.AnyCoord()
 	}
 	var g orb.Geometry
+	pow2 := false
 	switch shape := rapid.IntRange(0, 39).Draw(t, "shape"); {
 	case shape == 39:
 		g = nil
 	case shape == 38:
 		g = typedNilOf(rapid.IntRange(0, 6).Draw(t, "nilkind"))
+	case shape >= 36:
+		// length class "around a power of two": a vertex list of 2^k-1 .. 2^k+1 points (k = 4..9) in one
+		// of the ten positions of the length enumeration, at top level or inside a collection with followers.
+		// Coordinates are index-derived from a drawn base (every point distinct).
+		k := rapid.IntRange(4, 9).Draw(t, "pow2k")
+		n := 1<<uint(k) + rapid.IntRange(-1, 1).Draw(t, "pow2d")
+		cnt := &counter{k: uint64(rapid.Uint32().Draw(t, "coordbase"))}
+		g = place(rapid.IntRange(0, 2).Draw(t, "placement"), lengthShape(rapid.IntRange(0, len(lengthShapeNames)-1).Draw(t, "lenshape"), n, cnt), cnt)
+		pow2 = true
 	case shape >= 30:
 		// bias towards the multi-level kinds
 		o.Kinds = []string{"MultiLineString", "Polygon", "MultiPolygon", "MultiPoint"}
@@ -832,6 +851,9 @@ func drawCase(t *rapid.T) Case {
 	}
 	g, _ = denil(g, true)
 	c := Case{Geom: gen.G{V: g}}
+	if pow2 {
+		stats.Class("length class:a vertex list of 2^k-1..2^k+1 points, k=4..9")
+	}
 	switch rapid.IntRange(0, 3).Draw(t, "sridclass") {
 	case 0:
 		c.SRID = 0
@@ -1220,6 +1242,120 @@ func TestEnumAllocCaps(t *testing.T) {
 		}
 	}
 	stats.Subspace("point counts {99,100,101,9999,10000,10001} in line/multi-point/ring/member line/member ring/collection member and member counts {99,100,101,102,257} in multi-line/polygon/multi-polygon/collection x byte order x SRID {absent,4326}", size, true)
+}
+
+// ---- vertex-list lengths ("behaviour depends on a magic element count")
+
+var lengthShapeNames = []string{
+	"LineString", "MultiPoint", "Ring", "one-ring Polygon",
+	"2-ring Polygon, ring 0", "2-ring Polygon, ring 1",
+	"2-line MultiLineString, line 0", "2-line MultiLineString, line 1",
+	"2-polygon MultiPolygon, polygon 0", "2-polygon MultiPolygon, polygon 1",
+}
+
+// lengthShape builds shape number kind with a vertex list of exactly n distinct points in the named position
+// (the sibling list, where there is one, has 3 points).
+func lengthShape(kind, n int, c *counter) orb.Geometry {
+	switch kind {
+	case 0:
+		return orb.LineString(c.pts(n))
+	case 1:
+		return orb.MultiPoint(c.pts(n))
+	case 2:
+		return orb.Ring(c.pts(n))
+	case 3:
+		return orb.Polygon{c.pts(n)}
+	case 4:
+		return orb.Polygon{c.pts(n), c.pts(3)}
+	case 5:
+		return orb.Polygon{c.pts(3), c.pts(n)}
+	case 6:
+		return orb.MultiLineString{c.pts(n), c.pts(3)}
+	case 7:
+		return orb.MultiLineString{c.pts(3), c.pts(n)}
+	case 8:
+		return orb.MultiPolygon{{c.pts(n)}, {c.pts(3)}}
+	}
+	return orb.MultiPolygon{{c.pts(3)}, {c.pts(n)}}
+}
+
+// place puts g (0) at top level, (1) first in a collection followed by a point and a short line string
+// (a shift or a stale encoder buffer corrupts the followers), (2) last in a collection after a point.
+func place(placement int, g orb.Geometry, c *counter) orb.Geometry {
+	switch placement {
+	case 1:
+		return orb.Collection{g, orb.Point{c.next(), c.next()}, orb.LineString(c.pts(3))}
+	case 2:
+		return orb.Collection{orb.Point{c.next(), c.next()}, g}
+	}
+	return g
+}
+
+func enumLengths() []int {
+	seen := map[int]bool{}
+	var out []int
+	add := func(n int) {
+		if !seen[n] {
+			seen[n] = true
+			out = append(out, n)
+		}
+	}
+	for n := 0; n <= 520; n++ {
+		add(n)
+	}
+	for k := uint(5); k <= 9; k++ {
+		add(3 << k)
+		add(5 << k)
+		add(10 << k)
+	}
+	for k := uint(10); k <= 14; k++ {
+		add(1<<k - 1)
+		add(1 << k)
+		add(1<<k + 1)
+	}
+	return out
+}
+
+// TestEnumLengths uses every vertex-list length 0..520, 2^k-1/2^k/2^k+1 for k = 10..14 and 3/5/10 x 2^k for
+// k = 5..9 in every list position of every kind, at top level, as first collection member with followers and
+// as last collection member; both byte orders, SRID absent/present; lite cases (see Case.Lite).
+func TestEnumLengths(t *testing.T) {
+	lengths := enumLengths()
+	c := &counter{}
+	var idx, size int64
+	for _, n := range lengths {
+		for kind := range lengthShapeNames {
+			for placement := 0; placement < 3; placement++ {
+				for combo := 0; combo < 4; combo++ {
+					// combo bit 0 = SRID present, bit 1 = big endian. Quick tier: top level takes all four
+					// for n <= 520, collection placements a rotating complementary pair (both orders, SRID
+					// absent and present); lengths above 520 one rotating combination. Thorough: all four.
+					if !stats.Thorough() {
+						rot := (n + kind + placement) % 4
+						if n > 520 && combo != rot {
+							continue
+						}
+						if n <= 520 && placement > 0 && combo != rot && combo != 3-rot {
+							continue
+						}
+					}
+					idx++
+					size++
+					if !stats.Mine(idx) {
+						continue
+					}
+					c.k = uint64(idx) * 7919 // index-derived, distinct per case and per point
+					g := place(placement, lengthShape(kind, n, c), c)
+					cs := Case{Geom: gen.G{V: g}, SRID: []int{0, 4326}[combo&1], BE: combo&2 != 0, Lite: true}
+					stats.Eval("TestEnumLengths", 1)
+					stats.Class("enum lengths position:" + lengthShapeNames[kind])
+					stats.NonTrivialHash(stats.Hash(fmt.Sprintf("len %d %d %d %d", n, kind, placement, combo)))
+					stats.TryT(t, "TestEnumLengths", cs, func() error { return checkCase(cs) })
+				}
+			}
+		}
+	}
+	stats.Subspace(fmt.Sprintf("%d vertex-list lengths (every n in 0..520; 2^k-1, 2^k, 2^k+1 for k=10..14; 3, 5, 10 x 2^k for k=5..9) x 10 list positions (line string, multi-point, ring, one-ring polygon, either ring of a 2-ring polygon, either line of a 2-line multi-line string, either polygon of a 2-polygon multi-polygon) x placement {top level, first collection member followed by a point and a line string, last collection member after a point} x byte order x SRID {absent,4326} (quick tier: collection placements take a rotating complementary pair of (order, SRID) combinations, lengths > 520 one rotating combination; thorough: all four); distinct coordinates; scanner framings raw + hex, ewkb when the SRID is present and wkb when absent", len(lengths)), size, true)
 }
 
 func oneOfEachKind() []orb.Geometry {
